@@ -16,10 +16,14 @@ static atomic_long order_ticket;          /* function end / join return ordering
 static long shared_plain;                 /* incremented only inside critical sections, deliberately not atomic */
 static atomic_long foreign_retire;        /* TProbe destructed by a thread other than its creator */
 static atomic_long tprobe_live;
+static atomic_long tprobe_child_live;     /* TProbes made by child threads and not finalised yet: 0 once every child is joined */
+static pthread_t main_thread;
 
 struct TProbe { int64_t val; pthread_t owner; int64_t canary; };
-static void TProbe_New(var self, var args) { struct TProbe* p = self; p->val = c_int(get(args, $I(0))); p->owner = pthread_self(); p->canary = 0x7470726f6265LL; atomic_fetch_add(&tprobe_live, 1); }
-static void TProbe_Del(var self) { struct TProbe* p = self; if (!pthread_equal(p->owner, pthread_self()) || p->canary != 0x7470726f6265LL) atomic_fetch_add(&foreign_retire, 1); p->canary = 0; atomic_fetch_sub(&tprobe_live, 1); }
+static void TProbe_New(var self, var args) { struct TProbe* p = self; p->val = c_int(get(args, $I(0))); p->owner = pthread_self(); p->canary = 0x7470726f6265LL; atomic_fetch_add(&tprobe_live, 1);
+  if (!pthread_equal(p->owner, main_thread)) atomic_fetch_add(&tprobe_child_live, 1); }
+static void TProbe_Del(var self) { struct TProbe* p = self; if (!pthread_equal(p->owner, pthread_self()) || p->canary != 0x7470726f6265LL) atomic_fetch_add(&foreign_retire, 1); if (p->canary == 0x7470726f6265LL && !pthread_equal(p->owner, main_thread)) atomic_fetch_sub(&tprobe_child_live, 1);
+  p->canary = 0; atomic_fetch_sub(&tprobe_live, 1); }
 var TProbe = Cello(TProbe, Instance(New, TProbe_New, TProbe_Del));
 
 struct Res { uint64_t digest; long cs_in[64], cs_out[64]; int ncs; long tryfail; long ended; int exc_seen; int64_t cell; };
@@ -107,6 +111,7 @@ int main(int argc, char** argv) {
   FILE* f = fopen(argv[1], "r"); if (!f) { perror(argv[1]); return 9; }
   if (argc > 2) { ev_fd = open(argv[2], O_WRONLY | O_CREAT | O_TRUNC, 0644); if (ev_fd < 0) { perror(argv[2]); return 9; } }
   hc_install(0);
+  main_thread = pthread_self();
   var fn = $(Function, thread_main); var fpark = $(Function, park_main);
   the_mutex = new_root(Mutex);
   while (hc_next(f)) {
@@ -138,7 +143,8 @@ int main(int argc, char** argv) {
         ev_int("ncs", res_thr[i].ncs); ev_ints("tin", (long long*)res_thr[i].cs_in, 0); ev_end();
         for (int c = 0; c < res_thr[i].ncs; c++) { ev_begin("cs"); ev_int("t", i); ev_int("tin", res_thr[i].cs_in[c]); ev_int("tout", res_thr[i].cs_out[c]); ev_end(); total_cs++; }
       }
-      ev_begin("summary"); ev_int("k", k); ev_int("plain", shared_plain); ev_int("sections", total_cs); ev_int("foreign", atomic_load(&foreign_retire)); ev_end();
+      ev_begin("summary"); ev_int("k", k); ev_int("plain", shared_plain); ev_int("sections", total_cs); ev_int("foreign", atomic_load(&foreign_retire));
+      ev_int("childlive", atomic_load(&tprobe_child_live)); ev_end();      /* every child's collector was torn down when it ended */
       continue;
     }
     if (hc_is(0, "tlsshare")) {
